@@ -238,8 +238,7 @@ func sortedKeys(m map[string]bool) []string {
 
 type memMsg struct {
 	target, sender *actor.PID
-	tname          string
-	data           []byte
+	msg            any
 }
 
 type memNet struct {
@@ -280,25 +279,11 @@ func (r *memRemote) Address() string           { return r.addr }
 func (r *memRemote) Start(e *actor.Engine) error { r.engine = e; return nil }
 func (r *memRemote) Stop() *sync.WaitGroup     { return &sync.WaitGroup{} }
 func (r *memRemote) Send(pid *actor.PID, msg any, sender *actor.PID) {
-	ser := remote.ProtoSerializer{}
-	var data []byte
-	var tname string
-	if p := catchPanic(func() {
-		var err error
-		data, err = ser.Serialize(msg)
-		if err != nil {
-			panic(err)
-		}
-		tname = ser.TypeName(msg)
-	}); p != "" {
-		r.net.mu.Lock()
-		r.net.badSer = append(r.net.badSer, fmt.Sprintf("%T to %s: %s", msg, pidStr(pid), p))
-		r.net.mu.Unlock()
-		return
-	}
+	// like the real remote, Send only queues the message object: it is serialised later, by the
+	// "writer" (the pump) - a sender that reuses the message's memory after Send corrupts it
 	r.net.mu.Lock()
 	k := [2]string{r.addr, pid.Address}
-	r.net.queues[k] = append(r.net.queues[k], memMsg{target: pid, sender: sender, tname: tname, data: data})
+	r.net.queues[k] = append(r.net.queues[k], memMsg{target: pid, sender: sender, msg: msg})
 	r.net.mu.Unlock()
 	select {
 	case r.net.wake <- struct{}{}:
@@ -347,7 +332,24 @@ func (n *memNet) pump() {
 			done()
 			continue
 		}
-		payload, err := remote.ProtoSerializer{}.Deserialize(m.data, m.tname)
+		ser := remote.ProtoSerializer{}
+		var data []byte
+		var tname string
+		if p := catchPanic(func() {
+			var err error
+			data, err = ser.Serialize(m.msg)
+			if err != nil {
+				panic(err)
+			}
+			tname = ser.TypeName(m.msg)
+		}); p != "" {
+			n.mu.Lock()
+			n.badSer = append(n.badSer, fmt.Sprintf("%T to %s: %s", m.msg, pidStr(m.target), p))
+			n.mu.Unlock()
+			done()
+			continue
+		}
+		payload, err := ser.Deserialize(data, tname)
 		if err != nil {
 			atomic.AddInt64(&n.dropped, 1)
 			done()
@@ -546,6 +548,11 @@ func c19Run(c *caseCtx) (res caseResult) {
 	nOps := 5 + r.Intn(36)
 	var script []string
 	var shape []byte
+	bulk := 0
+	if c.n%40 == 7 {
+		// a cluster with several hundred active actors: what a later joiner is told no longer fits in one small message
+		bulk = 257 + r.Intn(200)
+	}
 	interesting := 0
 	nextID := 0
 	check := func(step int, what string) {
@@ -592,9 +599,29 @@ func c19Run(c *caseCtx) (res caseResult) {
 			}
 		}
 	}
+	if bulk > 0 {
+		al := aliveNodes()
+		for i := 0; i < bulk; i++ {
+			from := al[r.Intn(len(al))]
+			nextID++
+			id := fmt.Sprintf("s%d", nextID)
+			pc := from.prod
+			active["spawned/"+id] = from.cl.Spawn(func() actor.Receiver { return &c19Actor{pc: pc} }, "spawned", actor.WithID(id))
+		}
+		if !quiesce() {
+			res.inconclusive("no quiescence after the bulk spawn")
+			return
+		}
+		script = append(script, fmt.Sprintf("bulk: %d cluster-spawns", bulk))
+		check(-1, "bulk spawn")
+		interesting++
+	}
 	for step := 0; step < nOps && res.Verdict != vViolated; step++ {
 		al := aliveNodes()
 		op := r.Intn(10)
+		if bulk > 0 && step == 0 {
+			op = 8 // a member joins the well-populated cluster
+		}
 		var what string
 		switch {
 		case op < 5: // activate
@@ -840,7 +867,7 @@ func c19Run(c *caseCtx) (res caseResult) {
 	res.count("operations", int64(len(script)))
 	res.count("network_messages_delivered", atomic.LoadInt64(&net.delivered))
 	res.count("nodes_created", int64(len(nodes)))
-	res.Desc = fmt.Sprintf("nodes=%d ops=%s", len(nodes), string(shape))
+	res.Desc = fmt.Sprintf("nodes=%d bulk=%d ops=%s", len(nodes), bulk, string(shape))
 	if len(nodes) >= 2 && interesting > 0 {
 		res.Sig = sigHash("c19", len(nodes), string(shape))
 	}
